@@ -13,13 +13,17 @@ def main():
     st = gen_tables.main()
     print("tables:", st)
     vlib.coq_makefile()
-    ok, out = vlib.coq_make([], timeout=3000)
-    print("coq:", "ok" if ok else out[-3000:])
+    man = json.load(open(os.path.join(vlib.VERIF, "MANIFEST.json")))
+    # whole development, best effort (files of properties not yet claimed may be under construction) ...
+    ok_all, out = vlib.coq_make([], timeout=3000, keep_going=True)
+    print("coq (all):", "ok" if ok_all else "some files do not build:\n" + out[-1500:])
+    # ... but everything a claimed check needs must build
+    ok, out = vlib.coq_make(["Props/%s.vo" % c["property_id"] for c in man["checks"]], timeout=3000)
+    print("coq (claimed):", "ok" if ok else out[-3000:])
     ok2, out2 = vlib.build_harness()
     print("harness:", "ok" if ok2 else out2[-3000:])
     ok3, out3 = vlib.build_sylt_bin()
     print("sylt bin:", "ok" if ok3 else out3[-3000:])
-    man = json.load(open(os.path.join(vlib.VERIF, "MANIFEST.json")))
     allok = ok and ok2 and ok3
 
     class C:
